@@ -505,6 +505,13 @@ func c06GenJSONObject(t *rapid.T, depth int, foreign bool) map[string]interface{
 				key = rapid.SampledFrom([]string{"Type", "bbox", "GEOMETRY", "crs", "Properties", "Id"}).Draw(t, "trickykey")
 			}
 		}
+		// names that need JSON (not Go) string escaping: control characters, DEL, quotes, backslash, non-ASCII, U+2028
+		if rapid.IntRange(0, 7).Draw(t, "escapedkey") == 0 {
+			key = rapid.SampledFrom([]string{"a\u0001b", "\x7f", "v\vt", "bell\a", "q\"uote", "back\\slash", "tab\tnl\n", "é", "\u2028", "\U0001F600", "", " "}).Draw(t, "escapedkeyval")
+			if !foreign && key == "" {
+				key = "e"
+			}
+		}
 		obj[key] = c06GenJSONValue(t, depth)
 	}
 	return obj
